@@ -92,6 +92,10 @@ func (v *PacketDslVisitorImpl) VisitPacket(ctx *gen.PacketContext) interface{} {
 			switch c := decl.(type) {
 			case *gen.RefMetaDataDeclarationContext:
 				result := v.VisitRefMetaDataDeclaration(c).(model.MetaData)
+				if result.Attr == nil {
+					// unknown base type, already reported
+					continue
+				}
 				v.BinModel.AddMetaData(result)
 			case *gen.MetaDataDeclarationContext:
 				result := v.metaDataDeclarationToMetaData(c).(model.MetaData)
@@ -553,9 +557,17 @@ func (v *PacketDslVisitorImpl) VisitRefMetaDataDeclaration(ctx *gen.RefMetaDataD
 	if ctx.STRING_LITERAL() != nil {
 		description = ctx.STRING_LITERAL().GetText()
 	}
+	base, exists := v.BinModel.MetaDataMap[ctx.GetTyp().GetText()]
+	if !exists {
+		v.BinModel.AddSyntaxError(&model.SyntaxError{
+			Line:   ctx.GetStart().GetLine(),
+			Column: ctx.GetStart().GetTokenSource().GetCharPositionInLine(),
+			Msg:    "Unknown metadata type " + ctx.GetTyp().GetText() + " for " + ctx.GetName().GetText(),
+		})
+	}
 	return model.MetaData{
 		Name:        ctx.GetName().GetText(),
-		Attr:        v.BinModel.MetaDataMap[ctx.GetTyp().GetText()].Attr,
+		Attr:        base.Attr,
 		Description: description,
 		Line:        ctx.GetStart().GetLine(),
 		Column:      ctx.GetStart().GetTokenSource().GetCharPositionInLine(),
